@@ -10,6 +10,9 @@ PROPS = {   # subject prefix -> (property, what failed)
  "fix: enter the claim state before": ("C04", "a contending claim processed before the claim's send call returned (zero latency) met the old state and was ignored: two CAs operational on one address"),
  "fix: a broadcast (BAM) of a PDU1 parameter group": ("C03", "a PDU1 parameter group sent to the global address by BAM (both layers) announced its PGN with PS = 0xFF (0xEFFF instead of 0xEF00): an independent decoder, and the library's own receiver, identify the message under another PGN than the same group sent as a single frame, by RTS/CTS or multi-PG (until then tolerated by the oracles as 'PDU1 PGNs are compared modulo the PS byte')"),
  "fix: after a hold CTS the originator waits T4": ("C03", "both layers: after a hold (zero-packet) CTS the originator armed Th = 0.5 s instead of T4 = 1.05 s: a conforming responder repeating its hold CTS every 0.5 s, one of them delayed 5 ms on the bus, had the connection aborted (reason 3) - the reference peer had spaced its hold frames 0.4 s until then"),
+ "fix: a listener that unsubscribes inside its callback": ("C05", "a message listener that unsubscribes itself (or an earlier entry) from inside its callback made the next registered listener miss the frame being delivered (live list iterated); the DM14 facade depended on that skip for the closing DM14 and now ignores that message explicitly"),
+ "fix: a request callback that unsubscribes inside": ("C14", "a request callback that unsubscribes itself (or an earlier one) inside its call made the next request callback of that CA miss the request"),
+ "fix: a DM1 subscriber that unsubscribes inside": ("C16", "a DM1 subscriber that unsubscribes itself (or an earlier one) inside its callback made the next subscriber miss the DM1 being delivered"),
  "fix: J1939-22 do not apply the destination filter to PDU2": ("C05", "J1939-22: PDU2 (broadcast) single frames were dropped unless the group extension equalled a local address"),
  "fix: timer and subscriber lists": ("C12", "remove_timer/unsubscribe removed while iterating (one of two adjacent registrations survived); an expired one-shot made the job thread skip the next timer (served up to 5 s late); a callback that removed itself and returned False killed the job thread with ValueError"),
  "fix: a periodic timer whose deadline equals": ("C12", "a periodic timer whose deadline is exactly equal to the time stamp of the job thread's pass (a faster timer keeps the thread passing) was served, not advanced, and called a second time in the next pass: two calls in one period"),
